@@ -985,6 +985,15 @@ static int run_batch() {
   int exit_code = 0;
   int violations = 0;
   std::vector<std::string> violation_lines;
+  if (!opt.all && found_order.size() > 1) {
+    // one gated, minimised violation is what the caller needs: take the one found at the lowest case index
+    std::string best = found_order[0];
+    for (auto& sg : found_order)
+      if (found[sg].index < found[best].index) best = sg;
+    printf("note: %zu distinct unknown signatures were seen; processing the first (case %llu); use --all for every one\n", found_order.size(),
+           (unsigned long long)found[best].index);
+    found_order.assign(1, best);
+  }
   for (auto& sig : found_order) {
     Found& f = found[sig];
     Prober pr;
@@ -1019,7 +1028,7 @@ static int run_batch() {
            (unsigned long long)f.index, c.msg.c_str());
     violation_lines.push_back(sfmt("VIOLATION property=C11 replay=%s", path.c_str()));
   }
-  if (violations && exit_code == 0) exit_code = 1;
+  if (violations) exit_code = 1;  // a gated, minimised violation outranks an unrelated gate failure (which was printed)
   if (infra_errors && exit_code == 0) {
     printf("INFRA %d worker failures outside an evaluation\n", infra_errors);
     exit_code = 2;
